@@ -163,7 +163,7 @@ void genFiles(Prng& r, Plan& p, int tier)
 		case 7: p.ops.push_back(op("tprintf", {path, (int64_t)(1 + r.below(5)), (int64_t)(r.next() >> 20)})); break;
 		case 8: p.ops.push_back(op("copy", {path, (int64_t)r.below(NPATH), (int64_t)r.below(4)})); break;
 		case 9: p.ops.push_back(op("move", {path, (int64_t)r.below(NPATH), (int64_t)r.below(4)})); break;
-		case 12: case 13: p.ops.push_back(op("same", {path, (int64_t)r.below(3), len, (int64_t)(r.next() >> 20)})); break;
+		case 12: case 13: p.ops.push_back(op("same", {path, (int64_t)r.below(4), len, (int64_t)(r.next() >> 20)})); break;
 		case 10: p.ops.push_back(op("bom", {path, (int64_t)r.below(3), (int64_t)biased(r, 0, 400, {0, 1, 2}), (int64_t)(r.next() >> 20), (int64_t)r.below(2)})); break;
 		default: p.ops.push_back(op("rm", {path})); break;
 		}
@@ -434,9 +434,10 @@ void runFiles(const Plan& p)
 		{
 			// the same File object is asked before and after it rewrites the file ("all sequences of write/append/reopen
 			// operations on one path"); "written" = after close()
-			int how = (int)(std::abs(o.arg(1)) % 3);
+			int how = (int)(std::abs(o.arg(1)) % 4);
 			std::string data = bytesOf((uint64_t)o.arg(3), (size_t)std::max<int64_t>(0, std::min<int64_t>(300000, o.arg(2))));
-			std::string expect = how == 1 ? old + data : data;
+			const std::string header = "HDR:v1;";
+			std::string expect = how == 1 ? old + data : how == 3 ? header + data : data;
 			asl::File f(path.c_str());
 			asl::Long s0 = f.size();
 			std::string c0 = hadOld ? STR(f.content()) : std::string();
@@ -446,6 +447,17 @@ void runFiles(const Plan& p)
 			bool ok;
 			if (how == 0)
 				ok = f.put(BA(data));
+			else if (how == 3)
+			{
+				// a small header through the stream operator (it stays in the object's buffer), then the payload with put() on
+				// the same open object: the file holds them in that order
+				ok = f.open(asl::File::WRITE);
+				if (ok)
+				{
+					f << asl::String(header.c_str());
+					ok = f.put(BA(data));
+				}
+			}
 			else
 			{
 				ok = f.open(how == 1 ? asl::File::APPEND : asl::File::WRITE);
